@@ -143,6 +143,7 @@ class NodePrintVisitor(xtuml.NodePrintVisitor):
 
 class ActionWalker(xtuml.Walker):
     domain = None
+    instance = None
     return_value = None
     
     def __init__(self, domain):
@@ -166,6 +167,8 @@ class ActionWalker(xtuml.Walker):
             
     def accept_BodyNode(self, node):
         self.symtab.enter_scope()
+        if self.instance is not None:
+            self.symtab.install_symbol('self', self.instance)
         
         try:
             self.accept(node.block)
